@@ -270,6 +270,10 @@ func (db *RockDB) collPersist(ts int64, dt byte, key []byte) (int64, error) {
 	if err != nil || expired || oldh.UserData == nil {
 		return 0, err
 	}
+	if oldh.Ver == byte(common.ValueHeaderV1) && oldh.ExpireAt == 0 {
+		// no expiry to remove (redis answers 0)
+		return 0, nil
+	}
 
 	rawV := db.expiration.encodeToRawValue(dt, oldh)
 	return db.ExpireAt(dt, key, rawV, 0)
